@@ -346,3 +346,209 @@ def next_below(v):
 def gaussian_bump(H, W, cx, cy, sigma, amp=1.0):
     yy, xx = np.mgrid[0:H, 0:W].astype(np.float64)
     return (amp * np.exp(-((xx - cx) ** 2 + (yy - cy) ** 2) / (2.0 * sigma * sigma))).astype(F32)
+
+
+# ----------------------------------------------------------------------------------
+# input DTYPE axis (C06 / C07 part "dtypes"): the peak finders accept maps of every floating point
+# type.  A case keeps its maps as exact doubles that are representable in the map's dtype; the
+# oracles are evaluated on those doubles (numpy float64), i.e. "in the map's own dtype".
+
+DTYPES = ["float32", "float64", "float16", "bfloat16"]
+# unit roundoff spacing at 1.0 (distance between neighbouring representable numbers in [1, 2))
+DTYPE_EPS = {"float64": 2.0**-52, "float32": 2.0**-23, "float16": 2.0**-10, "bfloat16": 2.0**-7}
+# relative differences "only this dtype can represent": two candidate maxima / maximum vs threshold
+DTYPE_DELTAS = {
+    "float64": [1e-9, 1e-10, 1e-10, 1e-11, 1e-12, 1e-12, 1e-13, 2.0**-52],
+    "float32": [2.0**-23, 2.0**-22, 2.0**-21],
+    "float16": [2.0**-10, 2.0**-9, 2.0**-8],
+    "bfloat16": [2.0**-7, 2.0**-6],
+}
+# magnitudes far below the usual value range (float64: below float32's range altogether)
+DTYPE_TINY = {
+    "float64": [1e-45, 1e-47, 1e-50, 1e-50, 1e-55, 1e-60],
+    "float32": [1e-20, 1e-30],
+    "float16": [2.0**-9],
+    "bfloat16": [1e-20, 1e-30],
+}
+DTYPE_GENERIC_MODELS = ["iid", "quant", "gauss", "tiedmax", "border"]
+DTYPE_SPECIAL_MODELS = ["neartie", "nearthr", "tiny"]
+# (dtype, value model) is ONE choice.  float64 carries the models only float64 can represent with
+# extra weight; the other dtypes get the same models at their own resolution.
+DTYPE_MODEL_PAIRS = (
+    [("float64", m) for m in DTYPE_GENERIC_MODELS]
+    + [("float64", m) for m in DTYPE_SPECIAL_MODELS for _ in range(4)]
+    + [("float32", m) for m in DTYPE_GENERIC_MODELS[:3] + DTYPE_SPECIAL_MODELS]
+    + [("float16", m) for m in ["iid", "gauss", "tiedmax"] + DTYPE_SPECIAL_MODELS]
+    + [("bfloat16", m) for m in ["iid", "gauss", "tiedmax"] + DTYPE_SPECIAL_MODELS]
+)
+
+
+def round_to_dtype(a, dtype):
+    """float64 array holding `a` rounded to the nearest number representable in `dtype`."""
+    a = np.asarray(a, dtype=np.float64)
+    if dtype == "float64":
+        return a.copy()
+    if dtype == "float32":
+        return a.astype(F32).astype(np.float64)
+    if dtype == "float16":
+        return a.astype(np.float16).astype(np.float64)
+    if dtype == "bfloat16":
+        bits = np.ascontiguousarray(a.astype(F32)).view(np.uint32).astype(np.uint64)
+        bits = (bits + 0x7FFF + ((bits >> 16) & 1)) & 0xFFFF0000  # round to nearest even on the upper 16 bits
+        return bits.astype(np.uint32).view(F32).astype(np.float64).reshape(a.shape)
+    raise ValueError(dtype)
+
+
+def round_scalar(v, dtype):
+    return float(round_to_dtype(np.asarray([v]), dtype)[0])
+
+
+def to_tensor(arr64, dtype, torch):
+    """A new contiguous tensor of the given dtype holding exactly the doubles of `arr64`."""
+    t = torch.from_numpy(np.ascontiguousarray(arr64, dtype=np.float64).copy()).to(getattr(torch, dtype))
+    if not np.array_equal(t.to(torch.float64).numpy(), arr64):
+        raise ValueError(f"case values are not representable in {dtype}")
+    return t
+
+
+def out_to_numpy(t, torch):
+    """Any floating / integer output tensor as a float64 / int64 numpy array (bfloat16 has no numpy type)."""
+    t = t.detach().cpu()
+    return (t.to(torch.float64) if t.is_floating_point() else t.to(torch.int64)).numpy().copy()
+
+
+def value_tol(dtype, v):
+    """Allowed |reported value - map value|.  The functions document float32 outputs: a float64 map
+    value may legitimately come back rounded to float32 (one float32 spacing at |v|, the denormal
+    spacing for magnitudes below float32's range).  float32 / float16 / bfloat16 values are exact in
+    float32 and in their own dtype, so nothing may be lost."""
+    if dtype != "float64":
+        return 0.0
+    return float(np.spacing(F32(min(abs(float(v)), 3e38))))
+
+
+def top_gap_class(m):
+    """Relative distance between the two largest DISTINCT values of a map, as a coarse class."""
+    mx = m.max()
+    rest = m[m < mx]
+    if rest.size == 0 or mx == 0:
+        return None
+    g = (mx - rest.max()) / abs(mx)
+    return "<1e-12" if g < 1e-12 else ("<2^-23" if g < 2.0**-23 else ("<1e-2" if g < 1e-2 else None))
+
+
+def thr_gap_class(mx, thr):
+    """Maximum vs threshold: 'equal', 'above/below by a relative distance < ...', or None."""
+    if mx == thr:
+        return "max==thr"
+    if thr == 0:
+        return None
+    g = abs(mx - thr) / abs(thr)
+    side = "above" if mx > thr else "below"
+    return f"max-{side}-thr-by<1e-12" if g < 1e-12 else (f"max-{side}-thr-by<2^-23" if g < 2.0**-23 else (f"max-{side}-thr-by<1e-2" if g < 1e-2 else None))
+
+
+def _dtype_map(draw, st, dtype, model, H, W, thr):
+    """One (H,W) float64 map (not yet rounded to dtype) of a dtype-axis value model."""
+    n = H * W
+    if model == "iid":  # full precision doubles, not float32-exact ones
+        rs = np.random.RandomState(draw(st.integers(0, 2**31 - 1)))
+        return rs.uniform(draw(st.sampled_from([-2.0, -0.2, 0.0])), 2.0, size=(H, W))
+    if model in DTYPE_GENERIC_MODELS:
+        return gen_map(draw, st, model, H, W).astype(np.float64)
+    deltas = DTYPE_DELTAS[dtype]
+    rs = np.random.RandomState(draw(st.integers(0, 2**31 - 1)))
+    bgk = draw(st.sampled_from(["zero", "rand", "rand", "bump"]))
+    if model == "neartie":
+        # k candidate maxima top*(1 - j*delta), j = 0..k-1, handed to the cells in a drawn order (the
+        # true maximum is as often the last candidate in row-major order as the first); the second
+        # candidate is an 8-neighbour of the first half of the time (adjacent near-tie)
+        top = draw(st.sampled_from([1.0, 0.9, 0.6, 0.75, 1.5, 0.3]))
+        k = min(draw(st.integers(2, 4)), n)
+        cells = [(draw(st.integers(0, H - 1)), draw(st.integers(0, W - 1)))]
+        if draw(st.booleans()):
+            y0, x0 = cells[0]
+            nb = [(y0 + dy, x0 + dx) for dy in (-1, 0, 1) for dx in (-1, 0, 1) if (dy or dx) and 0 <= y0 + dy < H and 0 <= x0 + dx < W]
+            if nb:
+                cells.append(draw(st.sampled_from(nb)))
+        while len(cells) < k:
+            c = (draw(st.integers(0, H - 1)), draw(st.integers(0, W - 1)))
+            if c not in cells:
+                cells.append(c)
+            elif n <= len(cells):
+                break
+        delta = draw(st.sampled_from(deltas))
+        order = draw(st.permutations(list(range(len(cells)))))
+        vals = [top * (1.0 - j * delta) for j in order]
+        if bgk == "zero":
+            m = np.zeros((H, W))
+        elif bgk == "rand":
+            m = rs.uniform(0.0, 0.9 * top, size=(H, W))
+        else:
+            yy, xx = np.mgrid[0:H, 0:W].astype(np.float64)
+            sg = draw(st.sampled_from([0.6, 1.0, 1.5]))
+            m = np.zeros((H, W))
+            for (y, x), v in zip(cells, vals):
+                m = np.maximum(m, 0.97 * v * np.exp(-((xx - x) ** 2 + (yy - y) ** 2) / (2 * sg * sg)))
+        for (y, x), v in zip(cells, vals):
+            m[y, x] = v
+        return m
+    if model == "nearthr":
+        # maximum = thr*(1 + s*delta): just above (valid), just below (no peak) or equal
+        s = draw(st.sampled_from([1, 1, -1, -1, -1, 0]))
+        delta = draw(st.sampled_from(deltas))
+        mx = thr * (1.0 + s * delta)
+        y, x = draw(st.integers(0, H - 1)), draw(st.integers(0, W - 1))
+        if bgk == "zero":
+            m = np.zeros((H, W))
+        elif bgk == "rand":
+            m = rs.uniform(0.0, 0.9, size=(H, W)) * mx
+        else:
+            yy, xx = np.mgrid[0:H, 0:W].astype(np.float64)
+            sg = draw(st.sampled_from([0.6, 1.0, 1.5]))
+            m = 0.97 * mx * np.exp(-((xx - x) ** 2 + (yy - y) ** 2) / (2 * sg * sg))
+        m[y, x] = mx
+        if n > 1 and draw(st.integers(0, 3)) == 0:  # a second cell holding the same maximum
+            m[draw(st.integers(0, H - 1)), draw(st.integers(0, W - 1))] = mx
+        return m
+    raise ValueError(model)
+
+
+def draw_dtype_maps(draw, st, dtype, model):
+    """Maps of the dtype axis.  Returns (B, C, H, W, float64 array exactly representable in `dtype`,
+    threshold kind, threshold).  The threshold is a number representable in the map's dtype (torch
+    compares the map with the Python scalar in the map's dtype), for float64 any double."""
+    # float16 maps are at least 2x2: kornia's homography normalisation divides by (size - 1 + 1e-14) and
+    # 1e-14 underflows to 0 in half precision, so the integral refinement of a one-cell-wide float16 map
+    # raises inside kornia (a degenerate shape x reduced precision artefact, not a clause of C06/C07)
+    if dtype != "float16" and draw(st.integers(0, 5)) == 0:
+        H, W = draw(st.sampled_from([(1, draw(st.integers(1, 9))), (draw(st.integers(2, 9)), 1)]))
+    else:
+        H, W = draw(st.integers(2, 9)), draw(st.integers(2, 9))
+    B = draw(st.integers(1, 2))
+    C = draw(st.integers(1, 3))
+    scale = 1.0
+    base = model
+    if model == "tiny":
+        scale = draw(st.sampled_from(DTYPE_TINY[dtype]))
+        base = draw(st.sampled_from(["iid", "gauss", "neartie", "neartie", "nearthr"]))
+    thr_kind = draw(st.sampled_from(["0.5", "0.2", "0.2", "0.25", "0.1", "1"] if base == "nearthr" else ["-1", "0", "0.2", "0.2", "0.5", "entry", "mapmax"]))
+    thr = None if thr_kind in ("entry", "mapmax") else round_scalar(float(thr_kind), dtype)
+    arr = np.zeros((B, C, H, W))
+    for b in range(B):
+        for c in range(C):
+            arr[b, c] = _dtype_map(draw, st, dtype, base, H, W, thr)
+    arr = round_to_dtype(arr * scale, dtype)
+    if thr is None:
+        b, c = draw(st.integers(0, B - 1)), draw(st.integers(0, C - 1))
+        thr = float(arr[b, c].max()) if thr_kind == "mapmax" else float(arr[b, c, draw(st.integers(0, H - 1)), draw(st.integers(0, W - 1))])
+    elif scale != 1.0:
+        # the threshold moves with the magnitude of the values (or lies far below it)
+        thr = round_scalar(thr * scale * (1.0 if base == "nearthr" else draw(st.sampled_from([1.0, 1.0, 1.0, 1e-10]))), dtype)
+    # now and then a channel pushed clearly below the threshold (mixed valid / invalid channels)
+    if B * C > 1 and draw(st.integers(0, 2)) == 0:
+        for b in range(B):
+            for c in range(C):
+                if draw(st.integers(0, 2)) == 0:
+                    arr[b, c] = round_to_dtype(arr[b, c] - (arr[b, c].max() - thr) - scale * draw(st.sampled_from([0.5, 0.25])), dtype)
+    return B, C, H, W, arr, thr_kind + ("" if scale == 1.0 else "*tiny"), float(thr)
